@@ -153,6 +153,10 @@ def generate_cutting_experiments(
                 decompose_qpd_instructions(
                     new_qc, subcirc_qpd_gate_ids[label], map_ids_tmp, inplace=True
                 )
+                if not cog.pauli_indices:
+                    # Only the placeholder measurement will be appended; its outcome
+                    # is ignored, so resets that are final now may still be removed.
+                    _remove_final_resets(new_qc)
                 _append_measurement_circuit(new_qc, cog, inplace=True)
                 subexperiments_dict[label].append(new_qc)
 
